@@ -38,6 +38,7 @@ THEOREMS = [
     "JanetModel.Props.C11.flush_frames_in_bounds",
     "JanetModel.Props.C11.takeError_frames_in_bounds",
     "JanetModel.Props.C11.advancePos_is_posStep",
+    "JanetModel.Props.C11.escape_roundtrip",
 ]
 ENV = dict(os.environ, ASAN_OPTIONS="detect_leaks=0:abort_on_error=0", UBSAN_OPTIONS="print_stacktrace=1")
 BAD_MARKS = ("PANIC", "SECOND-ERROR", "BADCOUNT", "SHORT", "NOTNIL", "BADWRAP", "NOT-A-STRING", "BADOP", "bad-op")
